@@ -725,11 +725,47 @@ def check_random(case):
 
 
 # ------------------------------------------------------------------ runner interface
+# ------------------------------------------------------------------ the same raw limits under different declared types
+def typed_histories():
+  """Sequences of validators built one after the other in one process: the same raw limits declared with different types
+  (and, for contrast, untyped).  A validator must decide by ITS declaration, whatever was built or evaluated before."""
+  raws = [[1.5, 8.5, None, None], [2.7, 9.2, 3.9, 8.1], [-2.5, 7.9, None, 6.5], [0.5, 100.5, 1.5, None]]
+  k = 0
+  for raw in raws:
+    for order in (('int', 'float', None), ('float', 'int'), (None, 'int', 'float')):
+      k += 1
+      shifted = [None if x is None else x + 16 * k for x in raw]   # distinct raw values per sequence
+      yield [{'k': 'in_range', 'a': [enc(x) for x in shifted], 't': t, 'ctor': 'accept'} for t in order]
+  for i, e in enumerate([7.9, -3.2, 120.5]):
+    for order in (('int', 'float'), ('float', 'int')):
+      yield [{'k': 'equals', 'a': [enc(e + 1000 * (1 + order.index('int')))], 't': t, 'ctor': 'accept'} for t in order]
+
+
+def check_history(specs, acct=None, known=()):
+  out = []
+  for i, spec in enumerate(specs):
+    for sig, detail in check_spec(spec, None):
+      sig2 = sig + '/after-other-declarations'
+      detail2 = 'validator %d of the sequence %r: %s' % (i, [(dec_all(x['a']), x['t']) for x in specs], detail)
+      out.append((sig2, detail2))
+      if acct is not None:
+        (acct.known if sig2 in known else acct.violation)(sig2, {'typed_history': specs}, detail2)
+      break
+  if acct is not None:
+    acct.case({'typed_history': specs}, True, ['typed-history'])
+  return out
+
+
+def dec_all(a):
+  return [dec(x) for x in a]
+
+
 def plan(tier, seed):
   specs = all_specs()
   nshards = 16
   jobs = [{'kind': 'grid', 'name': 'grid%d' % i, 'shard': i, 'nshards': nshards} for i in range(nshards)]
   jobs.append({'kind': 'eqpairs', 'name': 'eqpairs'})
+  jobs.append({'kind': 'typed-history', 'name': 'typed-history'})
   n = 1500 if tier == 'quick' else 40000
   for i in range(8 if tier == 'quick' else 16):
     jobs.append({'kind': 'hyp', 'name': 'hyp%d' % i, 'hseed': seed * 1000 + i, 'n': n, 'which': 'range' if i % 2 == 0 else 'percent'})
@@ -753,12 +789,17 @@ def run_job(job, acct):
   elif job['kind'] == 'eqpairs':
     for s1, s2 in eq_pairs():
       check_eq_pair(s1, s2, acct, known)
+  elif job['kind'] == 'typed-history':
+    for specs in typed_histories():
+      check_history(specs, acct, known)
   elif job['kind'] == 'hyp':
     strat = random_range_case() if job['which'] == 'range' else random_percent_case()
     hyp.search(acct, strat, check_random, seed=job['hseed'], max_examples=job['n'], known=known)
 
 
 def replay(case):
+  if 'typed_history' in case:
+    return check_history(case['typed_history'])
   if 'eq_pair' in case:
     return check_eq_pair(case['eq_pair'][0], case['eq_pair'][1], None)
   if 'sym_d' in case:
